@@ -111,10 +111,20 @@ Definition rule_reads (form : Z) (c : desc) (idx n : Z) : list read :=
    anything else a CartesianProductStrategy.  d = (minimum size, is_atom) of the ONE class handed
    to strategy.shifts (form 4 the non-empty child, 5 the original parent, 6 the last class).
    The declared shifts go through the GENERATED shift functions on the one-element list [d];
-   the reads through the constructor reads above on [d].  For a CartesianProductStrategy the
-   constructor property of these forms raises NotImplementedError, so get_terms reads nothing
-   at all: there the reads below are an upper bound and only the declared shifts are compared
-   with the implementation. *)
+   the reads through the constructor reads above on [d].
+
+   CartesianProductStrategy (strat <> 0): such a rule has ONE factor.  Since fix 25e10f1
+   EquivalenceRule.constructor builds a one-child DisjointUnion for it (form 4) and
+   EquivalencePathRule.constructor accepts CartesianProduct / Quotient original constructors
+   (form 6, also for paths of RAW one-child Rule / ReverseRule objects, which is what
+   specification_extrator.py puts in a path), so these count like the union forms and their
+   reads ARE compared with the implementation.  The one configuration whose constructor
+   property still raises NotImplementedError is EquivalenceRule(ReverseRule(one-factor product))
+   (form 5 with strat <> 0, or such a step inside a path): get_terms reads nothing at all
+   there, the reads below are only an upper bound and only the declared shifts are compared.
+   The plain reverse of a one-factor product is form 3 with c = [d], idx = 0 (Quotient without
+   sibling: reads_quotient's third summand, the `_c` polynomial, is `compositions 0 0 [] []`
+   = [], matching Quotient._c which returns the constant 1 without asking anybody). *)
 Definition derived_shifts (strat : Z) (d : Z * bool) : list Z :=
   if strat =? 0 then union_shifts [d] else product_shifts [d].
 
